@@ -40,4 +40,21 @@ theorem binary_untouched_generated (win : Bool) (name : String) (stack : List Fi
     inputFile chunks.flatten stack = chunks.flatten :=
   binary_untouched win name stack ((eol_map_gen_eq win _).1 h) chunks hn
 
+/-- "a fresh checkout reports no changes" (abstract hash) and the canonical
+`st_size` of `stat_and_sha1`, for the regenerated table -/
+theorem checkout_clean_generated {H : Type} [DecidableEq H] (sha : Bytes → H)
+    (win : Bool) (name : String) (stack : List Filter) (h : (name, stack) ∈ eolMapGen win)
+    (c : Bytes) (hn : hasNul c = false) (hc : readIn stack c = c)
+    (hx : lossy stack = true → noCrCrLf false c = true) :
+    reportsChange sha stack (sha c) (writeOut stack c) = false ∧
+    statSize stack (writeOut stack c) = c.length :=
+  checkout_clean sha win name stack ((eol_map_gen_eq win _).1 h) c hn hc hx
+
+/-- `FilteredStat`'s size fallback is harmless for the regenerated table -/
+theorem filtered_size_zero_iff_generated (win : Bool) (name : String) (stack : List Filter)
+    (h : (name, stack) ∈ eolMapGen win) (d : Bytes) :
+    (readIn stack d = [] ↔ d = []) ∧ statSize stack d = (readIn stack d).length :=
+  ⟨filtered_size_zero_iff win name stack ((eol_map_gen_eq win _).1 h) d,
+   (stat_size_canonical win name stack ((eol_map_gen_eq win _).1 h) d).1⟩
+
 end BreezyVerif.C45
